@@ -121,6 +121,20 @@ impl TilemapData {
         Some(&self.tiles[index])
     }
 
+    /// Checks that every tile exists in a tileset with `tile_count` tiles.
+    pub(crate) fn validate(&self, tile_count: u32) -> Result<()> {
+        for tile in self.tiles.iter() {
+            if tile.id() >= tile_count {
+                return Err(AsepriteParseError::InvalidInput(format!(
+                    "Tilemap references tile {}, but its tileset only has {} tiles",
+                    tile.id(),
+                    tile_count
+                )));
+            }
+        }
+        Ok(())
+    }
+
     pub(crate) fn parse_chunk<R: Read>(mut reader: AseReader<R>) -> Result<Self> {
         let width = reader.word()?;
         let height = reader.word()?;
